@@ -144,7 +144,13 @@ func (xp xpathImpl) resolveOperator(oper *xpath.Operator, ident string, s *Selec
 	case "!=":
 		return !val.Equal(a, b), nil
 	default:
-		c := a.(val.Comparable).Compare(b.(val.Comparable))
+		ac, aOrdered := a.(val.Comparable)
+		bc, bOrdered := b.(val.Comparable)
+		if !aOrdered || !bOrdered {
+			// a leaf-list say
+			return false, fmt.Errorf("'%s' has no order to compare by in xpath", ident)
+		}
+		c := ac.Compare(bc)
 		switch oper.Oper {
 		case "<":
 			return c < 0, nil
